@@ -669,6 +669,10 @@ class Symex:
             a = sym(a.name)
         if isinstance(b, Ext):
             b = sym(b.name)
+        if opname in ("in", "not in") and isinstance(a, Obj) and a.attrs.get("_identity") and not isinstance(b, (T, Obj)):
+            r = self.contains(b, a, node)
+            if isinstance(r, bool):
+                return r if opname == "in" else not r
         if isinstance(a, Obj) and not (opname in ("is", "is not", "==", "!=") and isinstance(b, Obj)):
             a = a.term
         if isinstance(b, Obj) and not isinstance(a, Obj):
@@ -708,6 +712,10 @@ class Symex:
             self.unsupported(node, "comparison of unsupported values")
 
     def contains(self, coll, x, node):
+        if isinstance(x, Obj) and x.attrs.get("_identity") and isinstance(coll, (dict, list, tuple, set, frozenset)) \
+                and not any(isinstance(e, T) for e in coll):
+            # records the rule declared pairwise distinct (`_identity`): membership is decided, not forked on
+            return any(e is x for e in coll)
         if isinstance(coll, Obj):
             coll = coll.term
         if isinstance(x, Obj):
